@@ -45,8 +45,9 @@ func init() {
 			}
 		}()
 		for task := range recyclerCh {
-			recycler := getRecyclerOfResource(task.resource)
-			recycler.scheduleNodes(task.nodes)
+			if recycler := getRecyclerOfResource(task.resource); recycler != nil {
+				recycler.scheduleNodes(task.nodes)
+			}
 		}
 	}()
 }
